@@ -13,9 +13,9 @@ use temporal_rs::provider::TransitionDirection;
 use temporal_rs::tzdb::FsTzdbProvider;
 use temporal_rs::{Calendar, Instant, PlainDate, PlainDateTime, PlainTime, TemporalError, TimeZone, ZonedDateTime};
 
-const ZONES: [&str; 12] = [
+const ZONES: [&str; 14] = [
     "UTC", "America/New_York", "Europe/London", "Australia/Lord_Howe", "Asia/Kolkata", "Pacific/Apia", "Africa/Monrovia",
-    "America/St_Johns", "Asia/Tehran", "Europe/Dublin", "+05:30", "-08:00",
+    "America/St_Johns", "Asia/Tehran", "Europe/Dublin", "+05:30", "-08:00", "America/Havana", "America/Sao_Paulo",
 ];
 pub const ZDT_GETTERS: [&str; 30] = [
     "year", "month", "month_code", "day", "hour", "minute", "second", "millisecond", "microsecond", "nanosecond", "offset",
@@ -26,6 +26,25 @@ pub const ZDT_GETTERS: [&str; 30] = [
 
 pub fn generate(rng: &mut Rng, thorough: bool) -> Vec<String> {
     let mut v = Vec::new();
+    // receivers a wrapper could be tempted to special-case: whole seconds, exact local midnights - unique, repeated
+    // (Havana's and Sao Paulo's clocks fall back to 00:00) and skipped -, the epoch, the first and last instants
+    for z in ZONES {
+        let mut exact: Vec<i128> = vec![0, -8_640_000_000_000_000_000_000, 8_640_000_000_000_000_000_000, 86_400, 1_700_000_000];
+        // every whole hour of the days around the 2023 / 2017 changes of clocks
+        for base in [1_699_142_400i128, 1_678_579_200, 1_487_469_600, 1_508_036_400, 1_509_854_400] {
+            for h in -30..=30i128 {
+                if thorough || h % 2 == 0 || (-6..=6).contains(&h) { exact.push(base + h * 3600); }
+            }
+        }
+        for sec in exact {
+            let ns = if sec.abs() > 8_000_000_000_000_000_000 { sec } else { sec * 1_000_000_000 };
+            for g in ZDT_GETTERS {
+                if thorough || matches!(g, "start_of_day" | "hours_in_day" | "hour" | "offset" | "to_plain_datetime" | "to_string" | "day" | "day_of_week") {
+                    v.push(format!("w19_zdt_get {z} {ns} {g}"));
+                }
+            }
+        }
+    }
     let n = if thorough { 4000 } else { 400 };
     for _ in 0..n {
         let z = *rng.pick(&ZONES);
